@@ -104,6 +104,16 @@ def run_check(tier, seed):
              P.wptr_version.off == 12 and P.wptr_generation.off == 14 and P.wptr_ceb.off == 16 and P.rec_size == 56)
     except EngineError as e:
         ck.inconclusive.append('offset extraction: %s' % e)
+    # ---- (ii-b) write() lays down every field of the record it is handed, whatever the segment held before
+    try:
+        from .seqlock_model import Programs
+        from . import record_store
+        Pn = Programs(prog, writer_new_only=True)
+        prs = Prover(seed)
+        record_store.check(ck, prs, prog, Pn)
+        ck.absorb(prs)
+    except EngineError as e:
+        ck.inconclusive.append('record store of write(): %s' % e)
     # ---- (iii) the C header, through CBMC
     cbmc_header(ck, prog, pr, fact)
     # ---- (iv) the two libraries compute the same thing
@@ -117,7 +127,7 @@ def run_check(tier, seed):
     pr.handled = {n for n, m in pr.failed} if ck.violations else set()
     ck.inconclusive = [i for i in ck.inconclusive if not (ck.violations and i.startswith('counterexample without native confirmation'))]
     ck.cov['functions_encoded'] = ['clockbound_now', 'ClockBoundClient::now', 'From<ShmError> for clockbound_err', 'From<ShmError> for ClockBoundError', 'From<ClockStatus> for clockbound_clock_status',
-                                   'ShmWriter::new / ShmReader::new pointer arithmetic', 'SHM_MAGIC']
+                                   'ShmWriter::new / ShmReader::new pointer arithmetic', 'SHM_MAGIC', 'ShmWriter::write over a typed record (every field stored)']
     ck.cov['mir_dump_s'] = round(mir_wall, 1)
     ck.cov['stubs'] = ['ShmReader::snapshot and ClockErrorBound::now: environment inside the two wrappers (arbitrary Result values)', 'CBMC: the header only, not a C program using it']
     ck.cov['bounds'] = {'layout': 'constants of the real compilers on every run', 'wrappers': 'all ShmError variants, all three statuses, arbitrary timespec values', 'outside': 'the output of a C program built against libclockbound (the header\'s declarations and the library\'s Rust source are what is analysed)'}
@@ -287,8 +297,71 @@ def equivalence(ck, prog, pr, seed, fact):
                 kc = errc.f[fields_c2.index('kind')].disc(); kr = errr.f[fields_r.index('kind')].disc()
                 ec = errc.f[fields_c2.index('errno')]; er = errr.f[fields_r.index('errno')]; er = er.f[0] if isinstance(er, Struct) else er
                 pr.prove('on failure both libraries report the same error kind and errno', both, z3.And(kc == kr + 1, ec == er))
+    open_equivalence(ck, prog, pr, oc, shm_err, fields_c, fields_r)
     pr.prove('clockbound_now takes a snapshot before it reads the clocks', z3.BoolVal(True),
              z3.BoolVal(all([e.kind for e in o.state.trace if e.kind in ('snapshot', 'now')][:1] == ['snapshot'] for o in outs_c)), need_reach=False)
+
+
+def open_equivalence(ck, prog, pr, oc, shm_err, fields_c, fields_r):
+    """clockbound_open and ClockBoundClient::new_with_path do the same thing to the reader: one ShmReader::new and nothing
+    else (a client whose open already takes a snapshot holds a different cache from the other one after the same calls)"""
+    new_ok = z3.Bool('reader_new_ok'); e0 = z3.Int('new_err_kind')
+    pr.add(e0 >= 0, e0 <= 3)
+
+    def mk_env():
+        def h_new(ex, st, callee, args, fn):
+            st.trace = st.trace + (Event('reader_new', (), None),)
+            return Enum(z3.If(new_ok, z3.IntVal(0), z3.IntVal(1)), {'Ok': Struct([Opaque('reader')]), 'Err': Struct([shm_err(e0)])})
+
+        def h_snap(ex, st, callee, args, fn):
+            st.trace = st.trace + (Event('snapshot', (), None),)
+            st.mem[('env', 'ceb')] = Opaque('ceb')
+            return Enum(z3.If(z3.Bool('open_snapshot_ok'), z3.IntVal(0), z3.IntVal(1)), {'Ok': Struct([Ref('env', 'ceb')]), 'Err': Struct([shm_err(z3.Int('open_snap_err'))])})
+
+        def h_errw(ex, st, callee, args, fn):
+            st.trace = st.trace + (Event('write_err', (), args[1]),)
+            return UNIT
+
+        def h_leak(ex, st, callee, args, fn):
+            st.trace = st.trace + (Event('leak', (), args[0]),)
+            return Opaque('ctxptr')
+        return [(r'ShmReader::new$', h_new), (r'ShmReader::snapshot$|clockbound_ctx::snapshot$', h_snap), (r'<impl \*mut clockbound_err>::write$', h_errw), (r'Box(::<.*>)?::leak', h_leak)]
+    occ = oc + [r'CStr::from_ptr(::<.*>)?$', r'CString::new', r'as_c_str$', r'Result::<.*>::expect$', r'Default>::default$', r'CString as .*Deref>::deref$']
+    try:
+        f_open_c = prog.find1('clockbound_open', crate='clockbound')
+        f_open_r = prog.find1('new_with_path', self_ty='ClockBoundClient', crate='clock_bound_client')
+        exc = Exec(prog, env=mk_env(), opaque_calls=occ); exr = Exec(prog, env=mk_env(), opaque_calls=occ)
+        st = State(); st.mem[(0, 'err')] = Opaque('err')
+        outs_c = [o for o in exc.run(f_open_c, [Opaque('path'), Ref(0, 'err')], st) if o.kind == 'return']
+        outs_r = [o for o in exr.run(f_open_r, [Opaque('path')], State()) if o.kind == 'return']
+    except EngineError as e:
+        ck.inconclusive.append('open wrappers not executable: %s' % e); return
+    pr.add(exc.side); pr.add(exr.side)
+    bad_seq = []
+    for side, outs in (('C library clockbound_open', outs_c), ('Rust client new_with_path', outs_r)):
+        for i, o in enumerate(outs):
+            seq = [e.kind for e in o.state.trace if e.kind in ('reader_new', 'snapshot')]
+            ok = seq == ['reader_new']
+            pr.prove('%s path %d: the only reader operation is ShmReader::new (operations: %s)' % (side, i, seq), o.state.pcond(), z3.BoolVal(ok))
+            if not ok:
+                bad_seq.append((side, seq))
+    for a in outs_c:
+        okc = any(e.kind == 'leak' for e in a.state.trace)
+        for b in outs_r:
+            okr = 'Ok' in b.value.p and 'Err' not in b.value.p
+            both = z3.And(a.state.pcond(), b.state.pcond())
+            if okc != okr:
+                pr.prove('open: the C library and the Rust client agree on success/failure for the same ShmReader::new result', both, z3.BoolVal(False), need_reach=False)
+            elif not okc:
+                we = [e for e in a.state.trace if e.kind == 'write_err']
+                if not we:
+                    continue        # err pointer null: nothing to compare
+                errc = we[0].ret; errr = b.value.p['Err'].f[0]
+                kc = errc.f[fields_c.index('kind')].disc(); kr = errr.f[fields_r.index('kind')].disc()
+                ec = errc.f[fields_c.index('errno')]; er = errr.f[fields_r.index('errno')]; er = er.f[0] if isinstance(er, Struct) else er
+                pr.prove('open: on failure both libraries report the same error kind and errno', both, z3.And(kc == kr + 1, ec == er))
+    ck.cov['open_wrappers'] = {'paths_c': len(outs_c), 'paths_rust': len(outs_r), 'extra_reader_operations': bad_seq[:2]}
+    return bad_seq
 
 
 def native_compare(ck, spec):
@@ -325,9 +398,18 @@ def native_compare(ck, spec):
         f = dict(x.split('=', 1) for x in o.split()[1:] if '=' in x)
         if f.get('rust') != f.get('c'):
             bad.append('scenario "%s": Rust client -> %s, C library -> %s' % (s, f.get('rust'), f.get('c')))
+    # both libraries opened first, the segment changed afterwards (update in flight / wiped by a restarting daemon), then now()
+    scen2 = ['none', 'oddgen', 'zerover']
+    for s2 in scen2:
+        o = rp.ask('abi2 ' + s2)
+        res['abi2 ' + s2] = o
+        f = dict(x.split('=', 1) for x in o.split()[1:] if '=' in x)
+        if not o.startswith('ok') or f.get('rust') != f.get('c'):
+            bad.append('both clients opened on a consistent segment, then %s, then now(): Rust client -> %s, C library -> %s' % (
+                {'none': 'nothing changed', 'oddgen': 'the generation became odd (update in flight)', 'zerover': 'the version was zeroed (segment wiped)'}[s2], f.get('rust', o), f.get('c')))
     rp.close()
-    ck.cov['native_cross_check'] = {'scenarios': len(scen) + 1, 'disagreements': len(bad)}
-    ck.cov['traces_validated_against_impl'] = len(scen) + 1
+    ck.cov['native_cross_check'] = {'scenarios': len(scen) + 1 + len(scen2), 'disagreements': len(bad)}
+    ck.cov['traces_validated_against_impl'] = len(scen) + 1 + len(scen2)
     if bad:
         ck.violation('abi-native:' + re.sub(r'[^a-zA-Z]+', '_', bad[0])[:40], '; '.join(bad[:3]), {'native': res})
     return res
